@@ -408,6 +408,57 @@ def part_ref(_):
     return res
 
 
+def part_flow_params(_):
+    """`match f.Finished()` / `match f.Started()` / `match f(...).Finished()` on a flow NAME: parameters of the flow
+    that the statement does not mention never prevent the match; mentioned ones must be equal"""
+    res = {"flow_param_cases": 0, "violations": []}
+    sigs = [("$p", None), ("$p=1", 1), ("$p $q=2", None)]
+    starts = {"$p": ["start f 1", "start f $p=2", 'start f "x"'], "$p=1": ["start f", "start f 2", "start f $p=1"],
+              "$p $q=2": ["start f 1", "start f 1 3", "start f $q=5 $p=1"]}
+    bound = {"start f 1": {"p": 1}, "start f $p=2": {"p": 2}, 'start f "x"': {"p": "x"}, "start f": {"p": 1}, "start f 2": {"p": 2},
+             "start f $p=1": {"p": 1}, "start f 1 3": {"p": 1, "q": 3}, "start f $q=5 $p=1": {"p": 1, "q": 5}}
+    for sig, _d in sigs:
+        for start in starts[sig]:
+            b = dict(bound[start])
+            if sig == "$p $q=2" and "q" not in b:
+                b["q"] = 2
+            matches = [("f.Finished()", True), ("f.Started()", True), ("FlowFinished(flow_id=\"f\")", True)]
+            for k, v in b.items():
+                matches.append((f"f.Finished({k}={v!r})".replace("'", '"'), True))
+                other = 99 if v != 99 else 98
+                matches.append((f"f.Finished({k}={other})", False))
+            for m, exp in matches:
+                ev = "Started" if ".Started" in m else "Finished"
+                src = (f"flow f {sig}\n  match Go()\n\n"
+                       f"flow watcher\n  match {m}\n  send Marker()\n  match Never()\n\n"
+                       f"flow main\n  start watcher\n  {start}\n  match Never()\n")
+                try:
+                    st = v2x.init_state(src)
+                    v2x.step(st, v2x.resolve_event(st, ("start_main",)), [], v2x.UIDS.n)
+                    got = any(e["type"] == "Marker" for e in st.outgoing_events)
+                    if ev == "Finished":
+                        if got:
+                            res["violations"].append(("flow-name-event:matched-before-the-flow-finished", f"`match {m}` advanced at start", {"engine": "C04-flowparam", "source": src}))
+                        v2x.step(st, {"type": "Go"}, [], v2x.UIDS.n)
+                        got = any(e["type"] == "Marker" for e in st.outgoing_events)
+                except Exception as e:
+                    res["violations"].append(("flow-name-event:raised", f"`flow f {sig}`, `{start}`, `match {m}`: {e!r}", {"engine": "C04-flowparam", "source": src}))
+                    continue
+                res["flow_param_cases"] += 1
+                if got != exp:
+                    kind = "unmentioned-flow-parameter-prevents-match" if exp else "mentioned-flow-parameter-ignored"
+                    res["violations"].append((f"flow-name-event:{kind}",
+                                              f"`flow f {sig}` started by `{start}` (bound {b}): `match {m}` expected advance={exp}, got {got}",
+                                              {"engine": "C04-flowparam", "source": src}))
+    seen, uniq = set(), []
+    for v in res["violations"]:
+        if v[0] not in seen:
+            seen.add(v[0])
+            uniq.append(v)
+    res["violations"] = uniq
+    return res
+
+
 def run(rep, tier):
     from vf import par
 
@@ -477,6 +528,10 @@ def run(rep, tier):
     pr = part_progress(None)
     for sig, what, rp in pr["violations"]:
         rep.violation(sig, what, rp)
+    fp = part_flow_params(None)
+    for sig, what, rp in fp["violations"]:
+        rep.violation(sig, what, rp)
+    rep.set("flow_name_event_cases", fp["flow_param_cases"])
     rep.set("action_progress_cases", pr["progress_cases"])
     rep.set("interpreter_level_programs", progs)
     rep.set("interpreter_level_steps", steps)
@@ -500,6 +555,12 @@ def replay(rp):
             args["q"] = "zzz"
         print("pattern", to_colang(p), "payload", to_colang(v), "reference:", ref_match(p, v),
               "implementation score:", sm._compute_arguments_dict_matching_score(args, {"p": to_py(p, True)}))
+    elif rp.get("engine") == "C04-flowparam":
+        st = v2x.init_state(rp["source"])
+        v2x.step(st, v2x.resolve_event(st, ("start_main",)), [], v2x.UIDS.n)
+        print(rp["source"], "\nafter start ->", [e["type"] for e in st.outgoing_events])
+        v2x.step(st, {"type": "Go"}, [], v2x.UIDS.n)
+        print("event Go ->", [e["type"] for e in st.outgoing_events])
     else:
         st = v2x.init_state(rp["source"])
         v2x.step(st, v2x.resolve_event(st, ("start_main",)), [], v2x.UIDS.n)
